@@ -724,6 +724,10 @@ func (j *judge) judge(haveResp bool, result string, opErr error) mon.Result {
 					"operation returned %q without error but no complete callback ran and none without a function is the first holding one at boundary %d (first holding: %d)",
 					clip(result), e2, r.first)
 			}
+			if d.CBs[r.first].Once && fired[r.first] > 0 {
+				return j.bad("c18/once-ran-twice", "callback %d (%s) is marked once, had run before, and completed the operation again", r.first, d.CBs[r.first].Name)
+			}
+			fired[r.first]++
 			j.noteFired(d.CBs[r.first], false)
 			j.tags["completed-by-callback-without-function"] = true
 			completeAt = e2
